@@ -21,7 +21,7 @@ open JV Cli
 /-- **options may appear anywhere**: for any command line made of positional arguments,
 negative numbers, the switches -j -J -o -q -s in either spelling and the reformation option in
 all its spellings (`-r VALUE`, `-rVALUE`, `-r=VALUE`, `--reformation VALUE`,
-`--reformation=VALUE`), in any order and number, `from_parser` yields the options obtained
+`--reformation=VALUE`) and clusters of switches in one argument (`-jq`), in any order and number, `from_parser` yields the options obtained
 by applying the switches left to right and the positional arguments in their order -/
 theorem option_parsing (toks : List Tok) (hok : ∀ t ∈ toks, t.Ok) :
     parseCommand (toks.flatMap Tok.encode)
@@ -40,13 +40,39 @@ theorem double_dash (toks : List Tok) (hok : ∀ t ∈ toks, t.Ok)
 def calOf : Tok → Option Calendar
   | .short .julian | .long .julian => some .julian
   | .reformShort _ _ c | .reformLong _ _ c | .reformAttached _ _ _ c | .reformLongEq _ _ c => some c
+  | .cluster fs => if fs.contains .julian then some .julian else none
   | _ => none
+
+theorem flag_beq (a b : Flag) : (a == b) = decide (a = b) := rfl
+
+theorem flags_calendar (fs : List Flag) (o : Options) :
+    (fs.foldl Flag.apply o).calendar = if fs.contains .julian then .julian else o.calendar := by
+  induction fs generalizing o with
+  | nil => rfl
+  | cons f fs ih =>
+    simp only [List.foldl_cons, ih, List.contains_cons]
+    cases f <;> simp [Flag.apply] <;> split <;> rfl
+
+theorem flags_switches (fs : List Flag) (o : Options) :
+    (fs.foldl Flag.apply o).json = (o.json || fs.contains .json)
+    ∧ (fs.foldl Flag.apply o).ordinal = (o.ordinal || fs.contains .ordinal)
+    ∧ (fs.foldl Flag.apply o).quiet = (o.quiet || fs.contains .quiet)
+    ∧ (fs.foldl Flag.apply o).style = (o.style || fs.contains .style) := by
+  induction fs generalizing o with
+  | nil => simp
+  | cons f fs ih =>
+    obtain ⟨h1, h2, h3, h4⟩ := ih (f.apply o)
+    simp only [List.foldl_cons, h1, h2, h3, h4, List.contains_cons]
+    cases f <;> simp [Flag.apply, flag_beq]
 
 theorem apply_calendar (o : Options) (t : Tok) :
     (t.apply o).calendar = (calOf t).getD o.calendar := by
   cases t with
   | short f => cases f <;> rfl
   | long f => cases f <;> rfl
+  | cluster fs =>
+    simp only [Tok.apply, calOf, flags_calendar]
+    split <;> rfl
   | _ => rfl
 
 /-- **the last -j / -r wins, wherever options stand**: the selected calendar is the one
@@ -64,16 +90,19 @@ theorem last_calendar_wins (toks : List Tok) (o : Options) :
       simp only [Option.getD_none, Option.none_or, List.findSome?_cons, List.findSome?_nil]
       cases calOf t <;> rfl
 
+/-- does the token set switch `f`? -/
+def has (f : Flag) : Tok → Bool
+  | .short g | .long g => g == f
+  | .cluster fs => fs.contains f
+  | _ => false
+
 /-- the output switches are set exactly when they occur somewhere on the command line -/
 theorem switches_any_position (toks : List Tok) (o : Options) :
     (toks.foldl Tok.apply o).json
-        = (o.json || toks.any fun t => t matches .short .json | .long .json)
-    ∧ (toks.foldl Tok.apply o).ordinal
-        = (o.ordinal || toks.any fun t => t matches .short .ordinal | .long .ordinal)
-    ∧ (toks.foldl Tok.apply o).quiet
-        = (o.quiet || toks.any fun t => t matches .short .quiet | .long .quiet)
-    ∧ (toks.foldl Tok.apply o).style
-        = (o.style || toks.any fun t => t matches .short .style | .long .style) := by
+        = (o.json || toks.any (has .json))
+    ∧ (toks.foldl Tok.apply o).ordinal = (o.ordinal || toks.any (has .ordinal))
+    ∧ (toks.foldl Tok.apply o).quiet = (o.quiet || toks.any (has .quiet))
+    ∧ (toks.foldl Tok.apply o).style = (o.style || toks.any (has .style)) := by
   induction toks generalizing o with
   | nil => simp
   | cons t ts ih =>
@@ -81,9 +110,12 @@ theorem switches_any_position (toks : List Tok) (o : Options) :
     obtain ⟨h1, h2, h3, h4⟩ := ih (t.apply o)
     rw [h1, h2, h3, h4]
     cases t with
-    | short f => cases f <;> simp [Tok.apply, Flag.apply]
-    | long f => cases f <;> simp [Tok.apply, Flag.apply]
-    | _ => simp [Tok.apply]
+    | short f => cases f <;> simp [Tok.apply, Flag.apply, has, flag_beq]
+    | long f => cases f <;> simp [Tok.apply, Flag.apply, has, flag_beq]
+    | cluster fs =>
+      obtain ⟨g1, g2, g3, g4⟩ := flags_switches fs o
+      simp only [Tok.apply, has, g1, g2, g3, g4, Bool.or_assoc, and_self]
+    | _ => simp [Tok.apply, has]
 
 /-! ### answers -/
 
